@@ -76,6 +76,12 @@ Theorem C14_generated_close_order : close_stops_consumers_before_requeue = true.
 Proof. reflexivity. Qed.
 Print Assumptions C14_generated_close_order.
 
+(* the auto-delete turn of the model deletes a queue only if it is still an auto-delete queue, and if unused; so does
+   the code (read off the source on every run): defect F74 of the unchanged tree, repaired *)
+Theorem C14_generated_autodelete_guard : autodelete_turn_checks_the_queue = true.
+Proof. reflexivity. Qed.
+Print Assumptions C14_generated_autodelete_guard.
+
 Theorem C14_generated_dead_peer_detection : heartbeat_always_arms_timeout = true /\ reader_sets_read_deadline = true.
 Proof. split; reflexivity. Qed.
 Print Assumptions C14_generated_dead_peer_detection.
